@@ -463,18 +463,36 @@ def posOK (al : Bool) (st : VSt) (fo : Option Nat) (fa : Nat) : Bool :=
     if al then (st.lastAlign == some fa) || (st.lastAlign.isNone && fa == 1)
     else st.lastAlign.isNone
 
+/-- the layout offset of the field under the cursor -/
+def hdOff : List (Option Nat) → Option Nat
+  | o :: _ => o
+  | [] => none
+
+/-- `a` is a power of two (`-p & (a - 1)` is "bytes to the next multiple of `a`" only for these) -/
+def isPow2b (a : Nat) : Bool := a == 2 ^ a.log2
+
+/-- the field under the cursor has a layout offset: the interpreted reader seeks to it whatever the stream position is -/
+def nextStatic : Fields → List (Option Nat) → Bool
+  | .cons _ _ _ _ _, some _ :: _ => true
+  | _, _ => false
+
+/-- the field under the cursor is not a bit field -/
+def nonBitHead : Fields → Bool
+  | .cons _ _ _ (some _) _ => false
+  | _ => true
+
 /-- skip the void fields under the cursor (the generated code has no statement for them). The interpreted reader
-    still *positions* the stream for a void field: at `start + offset` when the layout gave it one. `at` is the static
-    offset the compiled stream is known to be at; `none` result: a void field's offset differs from it. -/
-def dropVoids : Fields → List (Option Nat) → Option Nat → Option (Fields × List (Option Nat) × Bool)
+    still *positions* the stream for a void field: at `start + offset` when the layout gave it one, and at the next
+    multiple of its alignment in aligned mode when it did not (so such a void must have alignment 1). `at` is the static
+    offset the compiled stream is known to be at; `none` result: the interpreted reader would move the stream. -/
+def dropVoids (cfg : Cfg) (al : Bool) : Fields → List (Option Nat) → Option Nat → Option (Fields × List (Option Nat) × Bool)
   | .cons name a ty bits rest, offs, at_ =>
     if isVoid ty ∧ bits.isNone then
-      let fo : Option Nat := match offs with | o :: _ => o | [] => none
-      let ok : Bool := match fo with
+      let ok : Bool := match hdOff offs with
         | some o => at_ == some o
-        | none => true
+        | none => !al || ty.alignment cfg == 1
       if ok then
-        match dropVoids rest (offs.drop 1) at_ with
+        match dropVoids cfg al rest (offs.drop 1) at_ with
         | some (fs, os, _) => some (fs, os, true)
         | none => none
       else none
@@ -490,13 +508,13 @@ def slotsOK (cfg : Cfg) (al : Bool) (items : List Item) (size : Nat) (bstart : O
     match fs with
     | .nil => none
     | .cons name _ ty bits fs' =>
-      let fo : Option Nat := match offs with | o :: _ => o | [] => none
+      let fo : Option Nat := hdOff offs
       if isVoid ty ∧ bits.isNone ∧ name ≠ sl.name then
         -- a void field inside the block: the interpreted reader positions the stream at its offset
         let ok : Bool := match fo, bstart with
           | some o, some k => k + cur == o
           | some _, none => false
-          | none, _ => true
+          | none, _ => !al || ty.alignment cfg == 1
         if ok then slotsOK cfg al items size bstart la (sl :: rest) fs' (offs.drop 1) first cur else none
       else if name ≠ sl.name ∨ bits.isSome then none else
       match slotRange cfg ty items sl cur, ty.size cfg with
@@ -525,49 +543,63 @@ decreasing_by
 /-- the validator -/
 def planOKAux (cfg : Cfg) (al : Bool) (salign : Nat) : Plan → Fields → List (Option Nat) → VSt → Bool
   | [], fs, offs, st =>
-    match dropVoids fs offs st.spos with
+    match dropVoids cfg al fs offs st.spos with
     | some (.nil, _, skipped) => !al && !(skipped && st.dirty) && st.lastAlign.isNone
     | _ => false
-  | [.alignCls], fs, offs, st =>
-    match dropVoids fs offs st.spos with
-    | some (.nil, _, skipped) => al && st.lastAlign.isNone && !(skipped && st.dirty)
-    | _ => false
-  | .alignCls :: _, _, _, _ => false
+  | .alignCls :: is, fs, offs, st =>
+    match is with
+    | [] =>
+      (match dropVoids cfg al fs offs st.spos with
+      | some (.nil, _, skipped) => al && st.lastAlign.isNone && !(skipped && st.dirty)
+      | _ => false)
+    | _ :: _ => false
   | .seek o :: is, fs, offs, st =>
-    match dropVoids fs offs st.spos with
+    match dropVoids cfg al fs offs st.spos with
     | some (fs', offs', skipped) =>
-      !(skipped && st.dirty) && planOKAux cfg al salign is fs' offs' { st with spos := some o, lastAlign := none }
+      -- the stream leaves the position the interpreted reader is at: sound only in front of a field that the
+      -- interpreted reader seeks to as well (the compiler emits a seek only for a field with a layout offset),
+      -- or when the stream is known to be there already (a seek to the offset of a void field)
+      !(skipped && st.dirty) &&
+      (if nextStatic fs' offs' then planOKAux cfg al salign is fs' offs' { st with spos := some o, lastAlign := none }
+       else if st.spos == some o then planOKAux cfg al salign is fs' offs' st
+       else false)
     | none => false
   | .align a :: is, fs, offs, st =>
-    match dropVoids fs offs st.spos with
+    match dropVoids cfg al fs offs st.spos with
     | none => false
     | some (fs', offs', skipped) =>
       if st.lastAlign.isSome ∨ a = 0 ∨ (skipped && st.dirty) then false else
       if a = 1 then planOKAux cfg al salign is fs' offs' st else
+      -- only aligned structures have alignment statements (a packed structure may start anywhere)
+      if !al then false else
       match st.spos with
       | some k =>
-        if salign % a = 0 then planOKAux cfg al salign is fs' offs' { st with spos := some (k + padNat k a), lastAlign := some a }
+        if salign % a = 0 ∧ isPow2b a then
+          planOKAux cfg al salign is fs' offs' { st with spos := some (k + padNat k a), lastAlign := some a }
         else false
       | none => planOKAux cfg al salign is fs' offs' { st with lastAlign := some a }
-  | .bitsReset :: is, fs, offs, st => planOKAux cfg al salign is fs offs { st with unit := none, dirty := false }
+  | .bitsReset :: is, fs, offs, st =>
+    -- the interpreted reader drops its bit buffer when it reads a field that is not a bit field: a reset in front of a
+    -- bit field would make the compiled reader load a unit the interpreted reader still has
+    nonBitHead fs && planOKAux cfg al salign is fs offs { st with unit := none, dirty := false }
   | .sub nm :: is, fs, offs, st =>
-    match dropVoids fs offs st.spos with
+    match dropVoids cfg al fs offs st.spos with
     | some (.cons name _ ty none rest, offs', _) =>
-      let fo : Option Nat := match offs' with | o :: _ => o | [] => none
+      let fo : Option Nat := hdOff offs'
       name == nm && !st.dirty && posOK al st fo (ty.alignment cfg) &&
       planOKAux cfg al salign is rest (offs'.drop 1)
-        { spos := (match st.spos, ty.size cfg with | some k, some z => some (k + z) | _, _ => none),
+        { spos := (match fo, st.spos, ty.size cfg with | some _, some k, some z => some (k + z) | _, _, _ => none),
           lastAlign := none, unit := none, dirty := false }
     | _ => false
   | .bits nm n via :: is, fs, offs, st =>
-    match dropVoids fs offs st.spos with
+    match dropVoids cfg al fs offs st.spos with
     | some (.cons name _ ty (some b) rest, offs', skipped) =>
       match bitsVia ty via, ty.bitBase with
       | some ft, some ft' =>
         match ft.size with
         | none => false
         | some fsz =>
-          let fo : Option Nat := match offs' with | o :: _ => o | [] => none
+          let fo : Option Nat := hdOff offs'
           let newUnit : Bool := match st.unit with
             | none => true
             | some (u, rem) => rem == 0 || u != ft
@@ -581,14 +613,16 @@ def planOKAux (cfg : Cfg) (al : Bool) (salign : Nat) : Plan → Fields → List 
     | _ => false
   | .block size fmt slots :: is, fs, offs, st =>
     if st.dirty then false else
-    match dropVoids fs offs st.spos, fmtItemsOf fmt size with
+    match dropVoids cfg al fs offs st.spos, fmtItemsOf fmt size with
     | some (fs0, offs0, _), some its =>
       match slotsOK cfg al its size st.spos st.lastAlign slots fs0 offs0 true 0 with
       | none => false
       | some (fs', offs', cur) =>
         cur == size &&
         planOKAux cfg al salign is fs' offs'
-          { spos := st.spos.map (· + size), lastAlign := none, unit := none, dirty := false }
+          { spos := st.spos.map (· + size),
+            -- a block without slots reads no field: a pending alignment stays pending
+            lastAlign := if slots.isEmpty then st.lastAlign else none, unit := none, dirty := false }
     | _, _ => false
 
 /-- validate the plan of a structure's compiled reader against its field list -/
